@@ -9,6 +9,7 @@ import (
 	"github.com/tuneinsight/lattigo/v6/multiparty/mpckks"
 	"github.com/tuneinsight/lattigo/v6/ring"
 	"github.com/tuneinsight/lattigo/v6/schemes/ckks"
+	"github.com/tuneinsight/lattigo/v6/utils"
 	"github.com/tuneinsight/lattigo/v6/utils/bignum"
 
 	"verif/engine"
@@ -17,7 +18,6 @@ import (
 	"verif/uni"
 )
 
-const lambda = 128 // security parameter given to GetMinimumLevelForRefresh, as in the repository's tests
 
 // ckksWorld: parties, message, its plaintext polynomial (exact integers) and its encryption.
 type ckksWorld struct {
@@ -36,6 +36,12 @@ type ckksWorld struct {
 	minLevel int
 	logBound uint
 	lin      int
+	ci       bool
+	// output side of a masked transformation (= the input side unless the scenario switches parameters)
+	pout   ckks.Parameters
+	rpOut  rlwe.Parameters
+	POut   *mp.Parties
+	gapOut int
 }
 
 // newCKKSWorld returns nil (and skips the leaf) when the chain has no room for the requested level.
@@ -50,6 +56,11 @@ func newCKKSWorld(c *engine.Chooser, name string, k cfg) *ckksWorld {
 		inScale = rlwe.NewScale(new(big.Float).SetInt(new(big.Int).Lsh(big.NewInt(1), uint(k.inScale))))
 	}
 	var ok bool
+	lambda := 128 // security parameter given to GetMinimumLevelForRefresh, as in the repository's tests
+	if k.lambda != 0 {
+		lambda = k.lambda
+	}
+	c.Cover("ckks-lambda", fmt.Sprint(lambda))
 	w.minLevel, w.logBound, ok = mpckks.GetMinimumLevelForRefresh(lambda, inScale, k.n, w.params.Q())
 	if !ok {
 		c.Skip("GetMinimumLevelForRefresh: no admissible level in this chain")
@@ -60,9 +71,20 @@ func newCKKSWorld(c *engine.Chooser, name string, k cfg) *ckksWorld {
 		c.Skip("input level outside the chain")
 		return nil
 	}
+	w.ci = w.rp.RingType() == ring.ConjugateInvariant
 	w.slots = 1 << k.logSlots
 	w.dslots = 2 * w.slots
+	if w.ci { // real slots only: one coefficient per slot
+		w.dslots = w.slots
+	}
 	w.gap = w.rp.N() / w.dslots
+	w.pout, w.rpOut, w.POut, w.gapOut = w.params, w.rp, w.P, w.gap
+	if k.outChain != "" { // parameter switch: another chain and/or ring degree, fresh output keys
+		w.pout = outChains[k.outChain].CKKS(k.logScale)
+		w.rpOut = w.pout.Parameters
+		w.POut = mp.NewParties(w.rpOut, k.n)
+		w.gapOut = w.rpOut.N() / w.dslots
+	}
 	pt := ckks.NewPlaintext(w.params, w.lin)
 	pt.Scale = inScale
 	pt.LogDimensions.Cols = k.logSlots
@@ -71,7 +93,16 @@ func newCKKSWorld(c *engine.Chooser, name string, k cfg) *ckksWorld {
 		// distinct values of modulus < 1
 		w.values[i] = complex(0.9*float64(i+1)/float64(w.slots)-0.45, 0.5-0.8*float64(i)/float64(w.slots))
 	}
-	if k.batched {
+	if k.batched && w.ci {
+		re := make([]float64, w.slots)
+		for i := range re {
+			re[i] = real(w.values[i])
+			w.values[i] = complex(re[i], 0)
+		}
+		if err := w.enc.Encode(re, pt); err != nil {
+			panic(fmt.Sprintf("harness: %v", err))
+		}
+	} else if k.batched {
 		if err := w.enc.Encode(w.values, pt); err != nil {
 			panic(fmt.Sprintf("harness: %v", err))
 		}
@@ -104,6 +135,15 @@ func (w *ckksWorld) sparse(v []*big.Int) []*big.Int {
 	out := make([]*big.Int, w.dslots)
 	for j := range out {
 		out[j] = v[j*w.gap]
+	}
+	return out
+}
+
+// sparseOut is sparse in the output ring.
+func (w *ckksWorld) sparseOut(v []*big.Int) []*big.Int {
+	out := make([]*big.Int, w.dslots)
+	for j := range out {
+		out[j] = v[j*w.gapOut]
 	}
 	return out
 }
@@ -152,23 +192,41 @@ func ckksE2SLeaf(c *engine.Chooser, name string, k cfg) {
 		c.Cover("ckks-minlevel", "at-minimum")
 		coverTight(c, w, k.n)
 	}
-	e2s := make([]mpckks.EncToShareProtocol, n)
-	s2e := make([]mpckks.ShareToEncProtocol, n)
+	inst, hist := axes(c)
+	e2s := mp.Instances(inst, n, func() mpckks.EncToShareProtocol {
+		p, err := mpckks.NewEncToShareProtocol(w.params, w.flood)
+		if err != nil {
+			panic(fmt.Sprintf("harness: %v", err))
+		}
+		return p
+	}, func(p mpckks.EncToShareProtocol) mpckks.EncToShareProtocol { return p.ShallowCopy() })
+	s2e := mp.Instances(inst, n, func() mpckks.ShareToEncProtocol {
+		p, err := mpckks.NewShareToEncProtocol(w.params, w.flood)
+		if err != nil {
+			panic(fmt.Sprintf("harness: %v", err))
+		}
+		return p
+	}, func(p mpckks.ShareToEncProtocol) mpckks.ShareToEncProtocol { return p.ShallowCopy() })
 	pub := make([]multiparty.KeySwitchShare, n)
 	sec := make([]multiparty.AdditiveShareBigint, n)
 	for i := 0; i < n; i++ {
 		var err error
-		if i == 0 {
-			if e2s[i], err = mpckks.NewEncToShareProtocol(w.params, w.flood); err != nil {
-				c.Fail("C16/ckks-e2s/New/error", "%v", err)
-				return
+		if hist > 0 { // both objects already served a run: another level, another slot count, another key
+			lw := warmLevel(hist, w.lin, rp.MaxLevel())
+			if lw < w.minLevel {
+				lw = w.minLevel
 			}
-			if s2e[i], err = mpckks.NewShareToEncProtocol(w.params, w.flood); err != nil {
-				c.Fail("C16/ckks-s2e/New/error", "%v", err)
-				return
+			skw := w.P.SK[i]
+			if hist == 3 {
+				skw = w.P.SK[(i+1)%n]
 			}
-		} else {
-			e2s[i], s2e[i] = e2s[0].ShallowCopy(), s2e[0].ShallowCopy()
+			ctw := ckks.NewCiphertext(w.params, 1, lw)
+			ctw.LogDimensions.Cols = (k.logSlots + 1) % w.params.LogMaxSlots()
+			_ = rlwe.NewEncryptor(rp, w.P.Ideal).EncryptZero(ctw)
+			pw, sw := e2s[i].AllocateShare(lw), mpckks.NewAdditiveShare(w.params, ctw.LogDimensions.Cols)
+			_ = e2s[i].GenShare(skw, w.logBound, ctw, &sw, &pw)
+			cw := s2e[i].AllocateShare(lw)
+			_ = s2e[i].GenShare(skw, s2e[i].SampleCRP(lw, mp.CRS(1)), ctw.MetaData, sw, &cw)
 		}
 		pub[i] = e2s[i].AllocateShare(lsh)
 		sec[i] = mpckks.NewAdditiveShare(w.params, k.logSlots)
@@ -256,7 +314,7 @@ func ckksE2SLeaf(c *engine.Chooser, name string, k cfg) {
 	// phase = lift(sum of shares) + sum_i e'_i: within eIn + N*sup of the plaintext at the sparse positions,
 	// within N*sup of zero elsewhere
 	bound := new(big.Int).Add(eIn, new(big.Int).Mul(big.NewInt(int64(n)), w.sup))
-	ph := uni.Phase(rp, rec.El(), w.P.Ideal)
+	ph := mp.Phase(rp, rec.El(), w.P.Ideal)
 	want := w.lift(w.sparse(w.ptCoeffs), false)
 	if d := maxDiff(ph, want); d.Cmp(bound) > 0 {
 		c.Fail("C16/ckks-s2e/reencryption-not-the-message", "|phase - plaintext polynomial| = %v > %v", d, bound)
@@ -311,8 +369,8 @@ func ckksTransformLeaf(c *engine.Chooser, name string, k cfg) {
 	if w == nil {
 		return
 	}
-	rp, n := w.rp, k.n
-	lsh, lout := w.lin, resolve(k.lout, rp.MaxLevel())
+	rp, rpo, n := w.rp, w.rpOut, k.n
+	lsh, lout := w.lin, resolve(k.lout, rpo.MaxLevel())
 	if k.lsh >= 0 {
 		lsh = w.minLevel + k.lsh
 	}
@@ -320,6 +378,14 @@ func ckksTransformLeaf(c *engine.Chooser, name string, k cfg) {
 		c.Skip("share level above the ciphertext level")
 		return
 	}
+	switched := k.outChain != ""
+	if switched {
+		c.Cover("params-switch", fmt.Sprintf("ckks/%s/N%d->N%d", k.outVia, rp.N(), rpo.N()))
+	}
+	if w.ci {
+		c.Cover("ckks-ring", "conjugate-invariant")
+	}
+	_, supOut := mp.KSNoise(rpo, w.flood)
 	if k.lin == 0 {
 		c.Cover("ckks-minlevel", "at-minimum")
 		coverTight(c, w, k.n)
@@ -338,30 +404,55 @@ func ckksTransformLeaf(c *engine.Chooser, name string, k cfg) {
 	// flag combinations the documentation refuses
 	mustReject := tf != nil && ((tf.Decode && !k.batched) || (tf.Encode && !tf.Decode && k.batched))
 
-	rfp := make([]mpckks.RefreshProtocol, n)
-	mtp := make([]mpckks.MaskedLinearTransformationProtocol, n)
+	inst, hist := axes(c)
+	var rfp []mpckks.RefreshProtocol
+	var mtp []mpckks.MaskedLinearTransformationProtocol
+	if refresh {
+		rfp = mp.Instances(inst, n, func() mpckks.RefreshProtocol {
+			p, err := mpckks.NewRefreshProtocol(w.params, prec, w.flood)
+			if err != nil {
+				panic(fmt.Sprintf("harness: %v", err))
+			}
+			return p
+		}, func(p mpckks.RefreshProtocol) mpckks.RefreshProtocol { return p.ShallowCopy() })
+		for i := range rfp {
+			mtp = append(mtp, rfp[i].MaskedLinearTransformationProtocol)
+		}
+	} else {
+		mtp = mp.Instances(inst, n, func() mpckks.MaskedLinearTransformationProtocol {
+			if k.outVia == "with" { // built for the input parameters, then switched with WithParams
+				p, err := mpckks.NewMaskedLinearTransformationProtocol(w.params, w.params, prec, w.flood)
+				if err != nil {
+					panic(fmt.Sprintf("harness: %v", err))
+				}
+				return p.WithParams(w.pout)
+			}
+			p, err := mpckks.NewMaskedLinearTransformationProtocol(w.params, w.pout, prec, w.flood)
+			if err != nil {
+				panic(fmt.Sprintf("harness: %v", err))
+			}
+			return p
+		}, func(p mpckks.MaskedLinearTransformationProtocol) mpckks.MaskedLinearTransformationProtocol { return p.ShallowCopy() })
+	}
 	shares := make([]multiparty.RefreshShare, n)
-	var crp multiparty.KeySwitchCRP
+	crp := mtp[0].SampleCRP(lout, mp.CRS(0))
 	for i := 0; i < n; i++ {
 		var err error
-		if refresh {
-			if i == 1 {
-				rfp[i] = rfp[0].ShallowCopy()
-			} else {
-				rfp[i], err = mpckks.NewRefreshProtocol(w.params, prec, w.flood)
+		if hist > 0 && !mustReject { // the object already produced a share: another level, slot count, key
+			lw := warmLevel(hist, w.lin, rp.MaxLevel())
+			if lw < w.minLevel {
+				lw = w.minLevel
 			}
-			mtp[i] = rfp[i].MaskedLinearTransformationProtocol
-		} else if i == 1 {
-			mtp[i] = mtp[0].ShallowCopy()
-		} else {
-			mtp[i], err = mpckks.NewMaskedLinearTransformationProtocol(w.params, w.params, prec, w.flood)
-		}
-		if err != nil {
-			c.Fail(sig+"/New/error", "%v", err)
-			return
-		}
-		if i == 0 {
-			crp = mtp[0].SampleCRP(lout, mp.CRS(0))
+			lwo := warmLevel(hist, lout, rpo.MaxLevel())
+			j := i
+			if hist == 3 {
+				j = (i + 1) % n
+			}
+			ctw := ckks.NewCiphertext(w.params, 1, lw)
+			ctw.LogDimensions.Cols = (k.logSlots + 1) % utils.Min(w.params.LogMaxSlots(), w.pout.LogMaxSlots())
+			_ = rlwe.NewEncryptor(rp, w.P.Ideal).EncryptZero(ctw)
+			sw := mtp[i].AllocateShare(lw, lwo)
+			_ = mtp[i].GenShare(w.P.SK[j], w.POut.SK[j], w.logBound, ctw, mtp[i].SampleCRP(lwo, mp.CRS(1)), nil, &sw)
 		}
 		shares[i] = mtp[i].AllocateShare(lsh, lout)
 		var pan interface{}
@@ -369,7 +460,7 @@ func ckksTransformLeaf(c *engine.Chooser, name string, k cfg) {
 			if refresh {
 				return rfp[i].GenShare(w.P.SK[i], w.logBound, w.ct, crp, &shares[i])
 			}
-			return mtp[i].GenShare(w.P.SK[i], w.P.SK[i], w.logBound, w.ct, crp, tf, &shares[i])
+			return mtp[i].GenShare(w.P.SK[i], w.POut.SK[i], w.logBound, w.ct, crp, tf, &shares[i])
 		})
 		if mustReject {
 			if err == nil || pan != nil {
@@ -398,7 +489,7 @@ func ckksTransformLeaf(c *engine.Chooser, name string, k cfg) {
 			return err
 		},
 		Hop:  mp.HopRefresh,
-		Flat: func(a multiparty.RefreshShare) mp.Flat { return mp.FlatRefresh(rp, rp, a) },
+		Flat: func(a multiparty.RefreshShare) mp.Flat { return mp.FlatRefresh(rp, rpo, a) },
 	}
 	agg, ok := mp.Merge(c, ops, shares, mp.Search{Mode: k.mode, Variants: true})
 	if !ok {
@@ -408,12 +499,18 @@ func ckksTransformLeaf(c *engine.Chooser, name string, k cfg) {
 
 	// expected output polynomial at the sparse positions, as exact rationals scaled to the output scale D:
 	// x = what the function sees (in units of the input scale S), y = f(x), out = y * D/S (re-encoded if asked)
-	ds := w.params.DefaultScale()
+	ds := w.pout.DefaultScale()
 	D, _ := new(big.Float).Set(&ds.Value).Int(nil)
 	S, _ := new(big.Float).Set(&w.ct.Scale.Value).Int(nil)
 	want := make([]*big.Int, w.dslots)
 	switch {
-	case tf == nil || (!tf.Decode && !tf.Encode):
+	case tf == nil:
+		// no function: every coefficient is rescaled by D/S (truncated towards zero, like the implementation)
+		sp := w.sparse(w.ptCoeffs)
+		for j := range want {
+			want[j] = new(big.Int).Quo(new(big.Int).Mul(sp[j], D), S)
+		}
+	case !tf.Decode && !tf.Encode:
 		// coefficients (paired as complex numbers) -> f -> coefficients
 		x := make([]*bignum.Complex, w.slots)
 		sp := w.sparse(w.ptCoeffs)
@@ -439,15 +536,15 @@ func ckksTransformLeaf(c *engine.Chooser, name string, k cfg) {
 		y := append([]complex128(nil), w.values...)
 		g(y)
 		if tf.Encode {
-			pt := ckks.NewPlaintext(w.params, lout)
+			pt := ckks.NewPlaintext(w.pout, lout)
 			pt.LogDimensions.Cols = k.logSlots
-			if err := w.enc.Encode(y, pt); err != nil {
+			if err := ckks.NewEncoder(w.pout).Encode(y, pt); err != nil {
 				panic(fmt.Sprintf("harness: %v", err))
 			}
-			co := uni.PolyCoeffs(rp.RingQ(), pt.Value, lout, pt.IsNTT, false)
-			Q := uni.QAtLevel(rp, lout)
+			co := uni.PolyCoeffs(rpo.RingQ(), pt.Value, lout, pt.IsNTT, false)
+			Q := uni.QAtLevel(rpo, lout)
 			for j := range want {
-				want[j] = ref.Center(co[j*w.gap], Q)
+				want[j] = ref.Center(co[j*w.gapOut], Q)
 			}
 		} else {
 			for i := range y {
@@ -478,8 +575,8 @@ func ckksTransformLeaf(c *engine.Chooser, name string, k cfg) {
 	bound.Mul(bound, D)
 	bound.Div(bound, S)
 	bound.Add(bound, big.NewInt(int64(n+2+8)))
-	bound.Add(bound, new(big.Int).Mul(big.NewInt(int64(n)), w.sup))
-	if new(big.Int).Lsh(bound, 3).Cmp(uni.QAtLevel(rp, lout)) > 0 {
+	bound.Add(bound, new(big.Int).Mul(big.NewInt(int64(n)), supOut))
+	if new(big.Int).Lsh(bound, 3).Cmp(uni.QAtLevel(rpo, lout)) > 0 {
 		c.Skip("noise bound above Q/8 at the output level")
 		return
 	}
@@ -491,7 +588,7 @@ func ckksTransformLeaf(c *engine.Chooser, name string, k cfg) {
 		return mtp[0].Transform(in, tf, crp, agg, out)
 	}
 	inpl := w.ct.CopyNew()
-	outp := ckks.NewCiphertext(w.params, 1, lout)
+	outp := ckks.NewCiphertext(w.pout, 1, lout)
 	for i, pair := range [][2]*rlwe.Ciphertext{{inpl, inpl}, {w.ct, outp}} {
 		mode := [...]string{"in-place", "out-of-place"}[i]
 		if err, pan := uni.Try(func() error { return run(pair[0], pair[1]) }); err != nil || pan != nil {
@@ -515,7 +612,7 @@ func ckksTransformLeaf(c *engine.Chooser, name string, k cfg) {
 			c.Fail(sig+"/finalize/wrong-metadata", "%s: IsBatched=%v (want %v), LogSlots=%d (want %d)", mode, res.IsBatched, wantBatched, res.LogDimensions.Cols, k.logSlots)
 			return
 		}
-		ph := w.sparse(uni.Phase(rp, res.El(), w.P.Ideal))
+		ph := w.sparseOut(mp.Phase(rpo, res.El(), w.POut.Ideal))
 		if d := maxDiff(ph, want); d.Cmp(bound) > 0 {
 			c.Fail(sig+"/finalize/not-f-of-message", "%s (transform %s, decode=%v, encode=%v, batched=%v): |phase - expected| = %v > %v", mode, k.tf, k.dec, k.enc, k.batched, d, bound)
 			return
